@@ -154,40 +154,58 @@ def int_rt(d, cls, lo, hi):
 
 
 # ------------------------------------------------------------------ bits_rt
-@meta(bounds="shape=all: every bit pattern of every length lo..hi (one symbolic bit per position; the "
-             "constructor and decoder branch on each bit, so this is solver-driven enumeration); "
-             "shape=hot: lengths lo..hi, every pattern with exactly one bit set and every pattern with "
-             "exactly one bit clear (each position of each length individually); context number "
+CTX_EDGE = (0, 14, 15, 254)     # both sides of the extended-tag-number boundary (20.2.1.2)
+
+
+def _bits_check(bits, ctxs, K=None, what="BitString"):
+    """one bit string through both tagging modes, once per context number in ctxs"""
+    K = K or P.BitString
+    n = len(bits)
+    contents = R.bitstring_contents(bits)
+    try:
+        obj = K(list(bits))
+        app = wire(obj)
+    except Exception as e:
+        raise Violation("refused-representable", cls=what, n=n, exc=type(e).__name__)
+    for ctx in (None,) + tuple(ctxs):
+        mode = "application" if ctx is None else "context"
+        try:
+            octets = app if ctx is None else wire(obj, ctx)
+        except Exception as e:
+            raise Violation("refused-representable", cls=what, n=n, exc=type(e).__name__)
+        check_octets(octets, APP if ctx is None else CTX, R.BIT_STRING if ctx is None else ctx, contents,
+                     what + "/" + mode, n=n)
+        y, other = unwire(K, octets, ctx, R.BIT_STRING, what + "/" + mode)
+        for o in (y, other):
+            got = o.value
+            if len(got) != n or list(got) != list(bits):
+                raise Violation("silently-altered", cls=what, mode=mode, n=n,
+                                got=list(got), want=list(bits))
+
+
+@meta(bounds="shape=all: every bit pattern of every length lo..hi, application tagging and context tagging "
+             "with numbers 0, 14, 15, 254 (BitString's constructor and decoder branch on every single bit, so "
+             "all patterns means enumeration: the pattern is selected nibble by nibble and the path is "
+             "concrete); shape=hot: lengths lo..hi, every pattern with exactly one bit set and every pattern "
+             "with exactly one bit clear (each position of each length individually), context number "
              "symbolic 0..254, both tagging modes",
       outside="lengths above 64; on lengths above the shape=all bound, patterns other than one-hot / "
               "one-cold (bits are packed independently of each other)",
       stubs=[], assumes=[])
 def bits_rt(d, shape, lo, hi):
     n = lo + d.index(hi - lo + 1, 'n')
-    ctx = d.int(0, 254, 'ctx')
     if shape == "all":
-        bits = [d.int(0, 1, 'b%d' % i) for i in range(n)]
+        bits = []
+        for j in range(0, n, 4):
+            w = min(4, n - j)
+            v = d.index(2 ** w, 'nib%d' % (j // 4))
+            bits += [(v >> (w - 1 - i)) & 1 for i in range(w)]
+        _bits_check(bits, CTX_EDGE)
     else:
         p = d.index(n, 'p')
-        one = 0 if d.bool('inv') else 1
-        bits = [one if i == p else 1 - one for i in range(n)]
-    try:
-        obj = P.BitString(list(bits))
-        app = wire(obj)
-        cx = wire(obj, ctx)
-    except Exception as e:
-        raise Violation("refused-representable", cls="BitString", n=n, exc=type(e).__name__)
-    contents = R.bitstring_contents(bits)
-    for mode, c, tclass in both_modes(ctx):
-        octets = app if c is None else cx
-        check_octets(octets, tclass, R.BIT_STRING if c is None else ctx, contents,
-                     "BitString/" + mode, n=n)
-        y, other = unwire(P.BitString, octets, c, R.BIT_STRING, "BitString/" + mode)
-        for o in (y, other):
-            got = o.value
-            if len(got) != n or list(got) != list(bits):
-                raise Violation("silently-altered", cls="BitString", mode=mode, n=n,
-                                got=list(got), want=list(bits))
+        ctx = d.int(0, 254, 'ctx')
+        for one in (1, 0):
+            _bits_check([one if i == p else 1 - one for i in range(n)], (ctx,))
     d.reach()
 
 
@@ -210,37 +228,33 @@ BIT_CLASSES = [c for c in _subclasses(P.BitString) if c.bitNames]
 def bits_names(d):
     K = d.pick(BIT_CLASSES, 'cls')
     names = sorted(K.bitNames)
-    i = d.index(len(names), 'name')
-    pair = d.bool('pair')
+    i = pick2(d, len(names), 'name')
     ctx = d.int(0, 254, 'ctx')
-    chosen = [names[i]]
-    if pair:
-        chosen.append(names[(i + 1) % len(names)])
-    want = [0] * K.bitLen
-    for nm in chosen:
-        pos = K.bitNames[nm]
-        if not (0 <= pos < K.bitLen):
-            raise Violation("bit-name-outside-length", cls=K.__name__, name=nm, pos=pos, bitLen=K.bitLen)
-        want[pos] = 1
-    try:
-        obj = K(list(chosen))
-        app = wire(obj)
-        cx = wire(obj, ctx)
-    except Exception as e:
-        raise Violation("refused-representable", cls=K.__name__, names=chosen, exc=type(e).__name__)
-    if list(obj.value) != want:
-        raise Violation("bit-name-position", cls=K.__name__, names=chosen, got=list(obj.value))
-    for nm in K.bitNames:
-        if obj[nm] != (1 if nm in chosen else 0):
-            raise Violation("bit-name-lookup", cls=K.__name__, names=chosen, name=nm)
-    contents = R.bitstring_contents(want)
-    for mode, c, tclass in both_modes(ctx):
-        octets = app if c is None else cx
-        check_octets(octets, tclass, R.BIT_STRING if c is None else ctx, contents,
-                     K.__name__ + "/" + mode)
-        y, _ = unwire(K, octets, c, R.BIT_STRING, K.__name__ + "/" + mode)
-        if list(y.value) != want:
-            raise Violation("silently-altered", cls=K.__name__, mode=mode, names=chosen, got=list(y.value))
+    for chosen in ([names[i]], [names[i], names[(i + 1) % len(names)]]):
+        want = [0] * K.bitLen
+        for nm in chosen:
+            pos = K.bitNames[nm]
+            if not (0 <= pos < K.bitLen):
+                raise Violation("bit-name-outside-length", cls=K.__name__, name=nm, pos=pos, bitLen=K.bitLen)
+            want[pos] = 1
+        try:
+            obj = K(list(chosen))
+        except Exception as e:
+            raise Violation("refused-representable", cls=K.__name__, names=chosen, exc=type(e).__name__)
+        if list(obj.value) != want:
+            raise Violation("bit-name-position", cls=K.__name__, names=chosen, got=list(obj.value))
+        for nm in K.bitNames:
+            if obj[nm] != (1 if nm in chosen else 0):
+                raise Violation("bit-name-lookup", cls=K.__name__, names=chosen, name=nm)
+        # encoded like the plain bit list the names stand for
+        try:
+            if wire(obj) != wire(P.BitString(list(want))):
+                raise Violation("bit-name-encoding", cls=K.__name__, names=chosen)
+        except Violation:
+            raise
+        except Exception as e:
+            raise Violation("refused-representable", cls=K.__name__, names=chosen, exc=type(e).__name__)
+        _bits_check(want, (ctx,), K, K.__name__)
     d.reach()
 
 
@@ -253,10 +267,27 @@ def _table(K):
     return t
 
 
+def _enum_edges(numbers):
+    """undefined numbers next to every defined one and at every encoded-length boundary"""
+    cand = set()
+    for k in numbers:
+        cand.update((k - 1, k + 1))
+    cand.update((0, 255, 256, 65535, 65536, 2 ** 24 - 1, 2 ** 24, 2 ** 32 - 1))
+    defined = set(numbers)
+    return sorted(c for c in cand if 0 <= c < 2 ** 32 and c not in defined)
+
+
 ENUM_CLASSES = [c for c in _subclasses(P.Enumerated) if _table(c)]
+# per class: name -> number, sorted names, sorted distinct numbers, undefined edge numbers
+# (built once at import, untraced)
+ENUM_INFO = {}
+for _c in ENUM_CLASSES:
+    _t = _table(_c)
+    _nums = sorted(set(_t.values()))
+    ENUM_INFO[_c.__name__] = (_t, sorted(_t), _nums, _enum_edges(_nums))
 
 
-def _enum_groups(limit=110):
+def _enum_groups(limit=130):
     groups, cur, size = [], [], 0
     for c in ENUM_CLASSES:
         n = len(_table(c))
@@ -273,55 +304,82 @@ def _enum_groups(limit=110):
 ENUM_GROUPS = _enum_groups()
 
 
+def pick2(d, n, name):
+    """concrete index in range(n) through a two-level selector: a flat d.index(n) walks a
+    chain of up to n solver decisions on every path, which is quadratic on the 477-name
+    PropertyIdentifier table"""
+    if n <= 24:
+        return d.index(n, name)
+    hi = d.index((n + 15) // 16, name + '_hi')
+    lo = d.index(min(16, n - 16 * hi), name + '_lo')
+    return 16 * hi + lo
+
+
 @meta(bounds="every Enumerated subclass with a name table defined in primitivedata/basetypes/apdu (one "
-             "instance per group of classes): every name of the table; every number 0..2^32-1 (symbolic: "
-             "each defined number, and all undefined numbers as one symbolic value per encoded length); "
-             "context number symbolic 0..254, both tagging modes",
-      outside="subclasses defined in other modules (object.py property helpers)", stubs=[], assumes=[])
-def enum_names(d, group):
+             "instance per group of classes).  part=names: every name of every table: Cls(name) encodes the "
+             "table's number in canonical form and decodes to the same name, Cls(number) gives the name; "
+             "application tagging and context tagging with numbers 0, 14, 15, 254 (concrete paths).  "
+             "part=other: every number 0..2^32-1 that the table does not define, as one symbolic value per "
+             "encoded length, both tagging modes, context number symbolic 0..254: survives as that number.  "
+             "part=edges (quick tier, the three tables with more than 130 names, where the symbolic "
+             "table lookup costs seconds per path): the undefined numbers adjacent to a defined one and at "
+             "the encoded-length boundaries, concrete",
+      outside="subclasses defined in other modules; symbolic context numbers for *named* values (the "
+              "context form is derived from the application tag's contents; checked for every number and "
+              "every context number by part=other and int_rt[Enumerated])",
+      stubs=[], assumes=[])
+def enum_names(d, group, part):
     K = d.pick(ENUM_GROUPS[group], 'cls')
-    table = _table(K)
     cname = K.__name__
-    ctx = d.int(0, 254, 'ctx')
-    if d.bool('by_name'):
-        names = sorted(table)
-        name = names[d.index(len(names), 'name')]
+    table, names, numbers, edges = ENUM_INFO[cname]
+    if part == "names":
+        name = names[pick2(d, len(names), 'name')]
         num = table[name]
+        ctxs = CTX_EDGE
         try:
             obj = K(name)
-            app = wire(obj)
-            cx = wire(obj, ctx)
+            byn = K(num).value
         except Exception as e:
             raise Violation("refused-representable", cls=cname, name=name, exc=type(e).__name__)
         if obj.value != name:
             raise Violation("enum-ctor-altered", cls=cname, name=name, got=obj.value)
+        if byn != name:
+            if isinstance(byn, str) and table.get(byn) == num:
+                d.flag(True, "enum-name-aliased", cls=cname, sent=name, got=byn, num=num)
+            else:
+                raise Violation("enum-number-to-wrong-name", cls=cname, num=num, got=byn, want=name)
         sent = name
     else:
-        num = d.int(0, 2 ** 32 - 1, 'num')
+        if part == "edges":
+            num = edges[pick2(d, len(edges), 'edge')]
+            ctxs = CTX_EDGE
+        else:
+            ctx = d.int(0, 254, 'ctx')
+            num = d.int(0, 2 ** 32 - 1, 'num')
+            undefined = True
+            for k in numbers:
+                undefined = undefined & (num != k)
+            d.assume(undefined)
+            ctxs = (ctx,)
         try:
             obj = K(num)
-            app = wire(obj)
-            cx = wire(obj, ctx)
         except Exception as e:
             raise Violation("refused-representable", cls=cname, num=num, exc=type(e).__name__)
         sent = obj.value
-        if isinstance(sent, str):
-            if table.get(sent) != num:
-                raise Violation("enum-number-to-wrong-name", cls=cname, num=num, got=sent)
-        else:
-            if sent != num:
-                raise Violation("enum-ctor-altered", cls=cname, num=num, got=sent)
-            for k in sorted(set(table.values())):
-                if num == k:
-                    raise Violation("enum-defined-number-unnamed", cls=cname, num=num)
+        if isinstance(sent, str) or sent != num:
+            raise Violation("enum-ctor-altered", cls=cname, num=num, got=sent)
     contents = R.unsigned_contents(num)
-    for mode, c, tclass in both_modes(ctx):
-        octets = app if c is None else cx
-        check_octets(octets, tclass, R.ENUMERATED if c is None else ctx, contents,
+    for ctx in (None,) + tuple(ctxs):
+        mode = "application" if ctx is None else "context"
+        try:
+            octets = wire(obj, ctx)
+        except Exception as e:
+            raise Violation("refused-representable", cls=cname, sent=sent, mode=mode, exc=type(e).__name__)
+        check_octets(octets, APP if ctx is None else CTX, R.ENUMERATED if ctx is None else ctx, contents,
                      cname + "/" + mode, sent=sent)
-        y, other = unwire(K, octets, c, R.ENUMERATED, cname + "/" + mode)
+        y, other = unwire(K, octets, ctx, R.ENUMERATED, cname + "/" + mode)
         got = y.value
-        if got != sent or isinstance(got, str) != isinstance(sent, str):
+        if isinstance(got, str) != isinstance(sent, str) or got != sent:
             if isinstance(got, str) and isinstance(sent, str) and table.get(got) == num:
                 # two names of one table share a number: the name that went in comes
                 # back as the other one
@@ -338,15 +396,18 @@ OT_TABLE = _table(P.ObjectType)
 OT_NUMBERS = sorted(set(OT_TABLE.values()))
 OT_NAMES = sorted(OT_TABLE)
 OID = R.OBJECT_IDENTIFIER
+OT_SMALL = [0, 8, 56, 62, 63, 127, 128, 1023]
 
 
-def _oid_finish(d, obj, otype, inst, app, cx, ctx, what):
+def _oid_finish(d, obj, otype, inst, app, cx, ctx, what, decode):
     contents = R.object_identifier_contents(otype, inst)
     for mode, c, tclass in both_modes(ctx):
         octets = app if c is None else cx
         check_octets(octets, tclass, OID if c is None else ctx, contents, what + "/" + mode)
+        if not decode:
+            continue
         y, other = unwire(P.ObjectIdentifier, octets, c, OID, what + "/" + mode)
-        for o in (y, other):
+        for o in ((y, other) if c is None else (y,)):
             if o.value != obj.value:
                 raise Violation("silently-altered", cls="ObjectIdentifier", mode=mode,
                                 sent=obj.value, got=o.value)
@@ -356,6 +417,7 @@ def _oid_finish(d, obj, otype, inst, app, cx, ctx, what):
 
 
 def _oid_value_ok(obj, otype, inst):
+    """the Python-side value is (name-or-number, instance) of exactly this type and instance"""
     tv, iv = obj.value
     if iv != inst:
         raise Violation("oid-instance", got=iv, want=inst)
@@ -372,13 +434,40 @@ def _oid_value_ok(obj, otype, inst):
         raise Violation("oid-get-tuple", got=obj.get_tuple(), want=(otype, inst))
 
 
-@meta(bounds="every 32-bit word (symbolic), i.e. every object type 0..1023 (named, reserved, vendor) with "
-             "every instance 0..2^22-1; context number symbolic 0..254, both tagging modes",
-      outside="nothing (the type is 32 bits)", stubs=[], assumes=[])
-def oid_word(d):
-    otype = d.int(0, 1023, 'type')
-    inst = d.int(0, 4194303, 'inst')
+@meta(bounds="all 2^32 object identifier words.  part=encode: type symbolic 0..1023 (named, reserved, vendor), "
+             "instance symbolic 0..2^22-1: ObjectIdentifier(type*2^22+instance) has that (type, instance) value "
+             "and encodes as exactly those 4 octets in both tagging modes.  part=decode: 4 symbolic octets: "
+             "decoding gives the (type, instance) the 10+22-bit layout says and re-encoding gives the same "
+             "octets (together: decode(encode(v)) = v for every word).  part=roundtrip: the literal "
+             "decode(encode(v)) = v, both modes, for types {0, 8, 56, 62, 63, 127, 128, 1023} with symbolic "
+             "instance.  Context number symbolic 0..254 throughout",
+      outside="nothing (the type is 32 bits); the literal round trip is run on 8 representative types only, "
+              "because reassembling the word from its octets under a 63-key symbolic table lookup costs "
+              "about 1 s per path",
+      stubs=[], assumes=[])
+def oid_word(d, part):
     ctx = d.int(0, 254, 'ctx')
+    if part == "decode":
+        o = d.bytes(4, name='octets')
+        otype = o[0] * 4 + o[1] // 64
+        inst = (o[1] % 64) * 65536 + o[2] * 256 + o[3]
+        for tag in (P.ApplicationTag(OID, o), P.ContextTag(ctx, o).context_to_app(OID)):
+            try:
+                obj = P.ObjectIdentifier(tag)
+                app = wire(obj)
+                cx = wire(obj, ctx)
+            except Exception as e:
+                raise Violation("undecodable", what="ObjectIdentifier", octets=o, exc=type(e).__name__)
+            _oid_value_ok(obj, otype, inst)
+            check_octets(app, APP, OID, o, "ObjectIdentifier/decode/application")
+            check_octets(cx, CTX, ctx, o, "ObjectIdentifier/decode/context")
+        d.reach()
+        return
+    if part == "roundtrip":
+        otype = d.pick(OT_SMALL, 'type')
+    else:
+        otype = d.int(0, 1023, 'type')
+    inst = d.int(0, 4194303, 'inst')
     w = otype * 4194304 + inst
     try:
         obj = P.ObjectIdentifier(w)
@@ -387,20 +476,22 @@ def oid_word(d):
     except Exception as e:
         raise Violation("refused-representable", cls="ObjectIdentifier", word=w, exc=type(e).__name__)
     _oid_value_ok(obj, otype, inst)
-    _oid_finish(d, obj, otype, inst, app, cx, ctx, "ObjectIdentifier(word)")
+    _oid_finish(d, obj, otype, inst, app, cx, ctx, "ObjectIdentifier(word)", part == "roundtrip")
     d.reach()
 
 
 @meta(bounds="(type, instance) with type symbolic over [-1, 1024] and instance symbolic over [-1, 2^22] "
-             "(one step outside the 10-bit / 22-bit fields on each side), given as two arguments or as one "
-             "tuple; form=name: every object type name with every instance 0..2^22-1; context number "
-             "symbolic 0..254",
-      outside="types / instances further outside the fields; the 'type:instance' text form",
+             "(one step outside the 10-bit / 22-bit fields on each side), given as two arguments (form=args) "
+             "or as one tuple (form=tuple): outside the fields refused, inside accepted and encoded as "
+             "type*2^22+instance in both tagging modes; form=name: every object type name with symbolic "
+             "instance 0..2^22-1 (rt=True: with the literal round trip); context number symbolic 0..254",
+      outside="types / instances further outside the fields; the 'type:instance' text form; decoding is "
+              "covered for every word by oid_word[part=decode]",
       stubs=[], assumes=[])
-def oid_tuple(d, form):
+def oid_tuple(d, form, rt):
     ctx = d.int(0, 254, 'ctx')
     if form == "name":
-        name = OT_NAMES[d.index(len(OT_NAMES), 'name')]
+        name = OT_NAMES[pick2(d, len(OT_NAMES), 'name')]
         otype = OT_TABLE[name]
         inst = d.int(0, 4194303, 'inst')
         arg, ok_dom = (name, inst), True
@@ -423,7 +514,7 @@ def oid_tuple(d, form):
     if form == "name" and obj.value[0] != name:
         raise Violation("oid-type-wrong-name", got=obj.value[0], want=name)
     _oid_value_ok(obj, otype, inst)
-    _oid_finish(d, obj, otype, inst, app, cx, ctx, "ObjectIdentifier(" + form + ")")
+    _oid_finish(d, obj, otype, inst, app, cx, ctx, "ObjectIdentifier(" + form + ")", rt)
     d.reach()
 
 
@@ -475,32 +566,44 @@ def date_time_rt(d, cls, form):
 
 
 # ------------------------------------------------------------------ str_rt
-@meta(bounds="OctetString: every octet string of length 0..n (length and content symbolic); "
-             "long=True: lengths 253, 254, 255, 256, 65535, 65536 (the boundaries of the extended length "
-             "forms of 20.2.1.3.1) with symbolic first and last octets and zero filler; context number "
-             "symbolic 0..254",
-      outside="other lengths above n (the content is copied, only the length header depends on the length)",
+LONG = [253, 254, 255, 256, 65535, 65536]
+LONG_DATA = dict((L, bytes([(7 * i + 1) % 256 for i in range(L)])) for L in LONG)
+
+
+@meta(bounds="OctetString: every octet string of length 0..n (length and content symbolic), context number "
+             "symbolic 0..254; long=True: concrete strings of lengths 253, 254, 255, 256, 65535, 65536 (both "
+             "sides of each boundary of the extended length forms of 20.2.1.3.1), context numbers 14, 15 "
+             "(n=1: 0, 14, 15, 254) (everything concrete: a 64 KiB symbolic string does not finish)",
+      outside="other lengths above n (the content is copied; only the length header depends on the length)",
       stubs=[], assumes=[])
 def octets_rt(d, n, long):
-    ctx = d.int(0, 254, 'ctx')
     if long:
-        L = d.pick([253, 254, 255, 256, 65535, 65536], 'len')
-        data = bytes(d.bytes(1, name='head')) + bytes(L - 2) + bytes(d.bytes(1, name='tail'))
+        L = d.pick(LONG, 'len')
+        ctx = d.pick(CTX_EDGE if n else CTX_EDGE[1:3], 'ctx')
+        data = LONG_DATA[L]
     else:
+        ctx = d.int(0, 254, 'ctx')
         data = d.bytes(0, n, 'data')
     try:
         obj = P.OctetString(data)
         app = wire(obj)
         cx = wire(obj, ctx)
     except Exception as e:
-        raise Violation("refused-representable", cls="OctetString", data=data, exc=type(e).__name__)
+        raise Violation("refused-representable", cls="OctetString", n=len(data), exc=type(e).__name__)
     for mode, c, tclass in both_modes(ctx):
         octets = app if c is None else cx
-        check_octets(octets, tclass, R.OCTET_STRING if c is None else ctx, data, "OctetString/" + mode)
+        if long:
+            # header and contents compared separately (a 64 KiB list comparison under tracing is slow)
+            hdr = bytes(R.tag_header(tclass, R.OCTET_STRING if c is None else ctx, len(data)))
+            if bytes(octets[:len(hdr)]) != hdr or bytes(octets[len(hdr):]) != data:
+                raise Violation("not-canonical", what="OctetString/" + mode, n=len(data),
+                                got=bytes(octets[:8]), want=hdr)
+        else:
+            check_octets(octets, tclass, R.OCTET_STRING if c is None else ctx, data, "OctetString/" + mode)
         y, other = unwire(P.OctetString, octets, c, R.OCTET_STRING, "OctetString/" + mode)
         for o in (y, other):
             if bytes(o.value) != bytes(data):
-                raise Violation("silently-altered", cls="OctetString", mode=mode, got=o.value, want=data)
+                raise Violation("silently-altered", cls="OctetString", mode=mode, n=len(data))
     d.reach()
 
 
@@ -612,11 +715,12 @@ def _fields(t):
     return (t.tagClass, t.tagNumber, t.tagLVT, bytes(t.tagData))
 
 
-@meta(bounds="one instance per application tag number 0..15 (13 datatypes + 3 reserved numbers); contents "
+@meta(bounds="every application tag number 0..15 (13 datatypes + 3 reserved numbers; lo..hi per instance); contents "
              "0..n symbolic octets (Boolean: L/V/T value symbolic 0..7, no contents); context number "
              "symbolic 0..254",
       outside="contents longer than n octets (conversions copy the contents)", stubs=[], assumes=[])
-def tag_conv(d, number, n):
+def tag_conv(d, lo, hi, n):
+    number = lo + d.index(hi - lo + 1, 'number')
     ctx = d.int(0, 254, 'ctx')
     if number == R.BOOLEAN:
         lvt = d.int(0, 7, 'lvt')
@@ -821,40 +925,49 @@ def instances(tier):
     out.append(Inst(int_rt, dict(cls="Integer", lo=-W, hi=W), budget=b, label="Integer,wide"))
     # bit strings
     if q:
-        out.append(Inst(bits_rt, dict(shape="all", lo=0, hi=6), budget=b))
-        out.append(Inst(bits_rt, dict(shape="all", lo=7, hi=8), budget=b))
+        out.append(Inst(bits_rt, dict(shape="all", lo=0, hi=8), budget=b))
         out.append(Inst(bits_rt, dict(shape="all", lo=9, hi=9), budget=b))
+        out.append(Inst(bits_rt, dict(shape="all", lo=10, hi=10), budget=b))
         out.append(Inst(bits_rt, dict(shape="hot", lo=1, hi=17), budget=b))
     else:
-        out.append(Inst(bits_rt, dict(shape="all", lo=0, hi=8), budget=b))
-        for n in (9, 10, 11, 12):
+        out.append(Inst(bits_rt, dict(shape="all", lo=0, hi=10), budget=b))
+        for n in (11, 12, 13, 14):
             out.append(Inst(bits_rt, dict(shape="all", lo=n, hi=n), budget=600))
         for lo, hi in ((1, 24), (25, 40), (41, 52), (53, 64)):
             out.append(Inst(bits_rt, dict(shape="hot", lo=lo, hi=hi), budget=b))
     out.append(Inst(bits_names, {}, budget=b))
     # enumerations
     for g, classes in enumerate(ENUM_GROUPS):
-        label = "group=%d:%s" % (g, classes[0].__name__ if len(classes) == 1
-                                 else classes[0].__name__ + ".." + classes[-1].__name__)
-        out.append(Inst(enum_names, dict(group=g), budget=90 if q else 300, label=label))
+        span = classes[0].__name__ if len(classes) == 1 else classes[0].__name__ + ".." + classes[-1].__name__
+        big = len(classes) == 1 and len(ENUM_INFO[classes[0].__name__][1]) > 130
+        out.append(Inst(enum_names, dict(group=g, part="names"), budget=90 if q else 400,
+                        label="names,group=%d:%s" % (g, span)))
+        if big:
+            out.append(Inst(enum_names, dict(group=g, part="edges"), budget=90 if q else 400,
+                            label="edges,group=%d:%s" % (g, span)))
+        if not (big and q):
+            out.append(Inst(enum_names, dict(group=g, part="other"), budget=90 if q else 600,
+                            label="other,group=%d:%s" % (g, span)))
     # object identifiers
-    out.append(Inst(oid_word, {}, budget=b))
-    for form in ("args", "tuple", "name"):
-        out.append(Inst(oid_tuple, dict(form=form), budget=b))
+    for part in ("encode", "decode", "roundtrip"):
+        out.append(Inst(oid_word, dict(part=part), budget=90 if q else 300))
+    for form in ("args", "tuple"):
+        out.append(Inst(oid_tuple, dict(form=form, rt=False), budget=90 if q else 300))
+    out.append(Inst(oid_tuple, dict(form="name", rt=not q), budget=90 if q else 300))
     # date, time
     out.append(Inst(date_time_rt, dict(cls="Date", form="tuple"), budget=b))
     out.append(Inst(date_time_rt, dict(cls="Time", form="tuple"), budget=b))
     out.append(Inst(date_time_rt, dict(cls="Date", form="kw"), budget=b))
     # strings
     out.append(Inst(octets_rt, dict(n=6 if q else 10, long=False), budget=b))
-    out.append(Inst(octets_rt, dict(n=0, long=True), budget=b))
+    out.append(Inst(octets_rt, dict(n=0 if q else 1, long=True), budget=90 if q else 300))
     for n in ((0, 1, 2) if q else (0, 1, 2, 3, 4)):
         out.append(Inst(chars_rt, dict(n=n, surrogate=False), budget=b if n < 4 else 600))
     out.append(Inst(chars_rt, dict(n=0, surrogate=True), budget=b))
     # null, boolean, tag conversions, floats
     out.append(Inst(null_bool, {}, budget=b))
-    for number in range(16):
-        out.append(Inst(tag_conv, dict(number=number, n=3 if q else 6), budget=b))
+    for lo in (0, 4, 8, 12):
+        out.append(Inst(tag_conv, dict(lo=lo, hi=lo + 3, n=3 if q else 6), budget=b))
     out.append(Inst(float_plumb, dict(cls="Real"), budget=b))
     out.append(Inst(float_plumb, dict(cls="Double"), budget=b))
     return out
